@@ -29,6 +29,7 @@ func (c01) Cases(tier string) int {
 func (c01) Thresholds(tier string) map[string]int64 {
 	return map[string]int64{
 		"options-in-if-in-options":             20,
+		"programs-with>=20-nodes":              30,
 		"jump-out-of-nested-body":              50,
 		"if-body-ends-in-option-group":         20,
 		"stop-with-statements-left":            20,
@@ -130,6 +131,11 @@ func (c01) genProgram(c *core.Ctx) *hast.Program {
 		// deeper bounds in the thorough tier: up to 8 nodes, 90 statements, nesting 7
 		cfg.MaxNodes, cfg.MaxStmts, cfg.MaxDepth, cfg.MaxReaders = 8, 90, 7, 4
 	}
+	if c.Idx%25 == 7 {
+		// many nodes spread over many readers (up to 90 / 8): lookups and merges beyond any small fixed size
+		cfg.MaxNodes, cfg.MaxStmts, cfg.MaxReaders = 90, 220, 8
+		return gen.Flow(r, cfg)
+	}
 	switch c.Idx % 4 {
 	case 1:
 		cfg.WOptions, cfg.WIf, cfg.MaxDepth = 30, 25, 6
@@ -199,6 +205,11 @@ func (p c01) Run(c *core.Ctx) {
 		c.Feature("rendered-in-random-layout")
 	}
 	scripts := hast.Render(prog, lay)
+	c.MaxOf("nodes-in-one-program", len(prog.Nodes))
+	c.MaxOf("readers-of-one-program", len(scripts))
+	if len(prog.Nodes) >= 20 {
+		c.Feature("programs-with>=20-nodes")
+	}
 	for k, v := range gen.Shapes(prog) {
 		if k != "max-static-depth" {
 			c.FeatureN(k, v)
